@@ -2,10 +2,10 @@
 // C11 pass budget; a few assertions on the `usable` filter are tagged C12).  The .cpp is included so that the TU-local types
 // (MacroDetector, ExtractionState) and functions (get_replacement, push_rule, D, MD, A) are reachable.
 //
-// The LR machinery is NOT executed here (matching of patterns is C12/C13): in the builds that run apply_macros the constructor
-// MacroDetector::MacroDetector(MacroDefinition) and MacroDetector::detect(vector<Token>&) are replaced by the contract stubs below
-// (Job(stubs=...)).  Everything else - get_detectors, getErrors, the usable filter, the priority bins, the pass loop, the
-// min_element comparator, get_replacement, erase/insert, the MAX_PASSES error - is the real code.
+// The LR machinery is NOT executed here (matching of patterns is C12/C13): MacroDetector::MacroDetector(MacroDefinition) and
+// MacroDetector::detect(vector<Token>&) are replaced by the contract stubs below (Job(stubs=...)).  Everything else - get_detectors,
+// getErrors, the usable filter, the priority bins, the pass loop, the min_element comparator, get_replacement, erase/insert, the
+// MAX_PASSES error, extract_macros with push_rule/D/MD/A, check_constraint - is the real code.
 #include "Compiler/src/macro.cpp"
 
 extern "C" { int nondet_int(); }
@@ -19,27 +19,48 @@ static inline bool nondet_bool() { return (nondet_int() & 1) != 0; }
 #ifndef MA_NDEF
 #define MA_NDEF MA_ND
 #endif
-#ifndef MA_NLOG
-#define MA_NLOG (MA_ND * (MA_PMAX + 1))     /* detect() calls a run can make if it overruns its budget by one pass */
+#ifndef MA_PRIOS
+#define MA_PRIOS {0}
+#define MA_CONF {0}
 #endif
+#define MA_NLOG (MA_ND * (MA_PMAX + 1))     /* detect() calls a run can make if it overruns its budget by one pass */
+#define MA_NREP (MA_PMAX + 1)               /* get_replacement() calls, same allowance */
 #define MA_MAXR (MA_NBODY * (MA_NMATCH > 1 ? MA_NMATCH : 1))   /* longest instantiated body */
 
 // ---------------------------------------------------------------------------------------------------------------- helpers
+// Token vectors are filled at constant indices and their size is set afterwards: a store through a pointer with a symbolic offset into a
+// large enclosing object is what CBMC handles worst (see caps_macro.hpp).
+#define TOKV_SET(vec, i, tok) new (&(vec).u.d[i]) Token(tok)
 static inline bool tok_eq(const Token &a, const Token &b) { return a.t == b.t && a.line == b.line && a.text == b.text && a.file == b.file; }
 static bool vec_eq(const std::vector<Token> &a, const std::vector<Token> &b) {
   bool e = a.n == b.n;
   for (int i = 0; i < MA_CT; i++) if (i < a.n && i < b.n) e = e && tok_eq(a.u.d[i], b.u.d[i]);
   return e;
 }
+static bool uvec_eq(const std::vector<unsigned> &a, const unsigned *b, int nb) {
+  bool e = a.n == nb;
+  for (int i = 0; i < MA_RS; i++) if (i < a.n && i < nb) e = e && a.u.d[i] == b[i];
+  return e;
+}
+static bool seqs_eq(const std::vector<std::vector<Token>> &a, const std::vector<std::vector<Token>> &b) {
+  bool e = a.n == b.n;
+  for (int i = 0; i < MA_RS; i++) if (i < a.n && i < b.n) e = e && vec_eq(*a.p[i], *b.p[i]);
+  return e;
+}
 static char sym_lower() { int c = nondet_int(); ASSUME(c >= 'a' && c <= 'z'); return (char)c; }
 static int sym_range(int lo, int hi) { int v = nondet_int(); ASSUME(v >= lo && v <= hi); return v; }
 static std::string one_char(char c) { std::string s; s.__push(c); return s; }
 static std::string two_char(char a, char b) { std::string s; s.__push(a); s.__push(b); return s; }
-// token vectors are filled at constant indices and their size is set afterwards (no push_back at a symbolic size: a store through a
-// pointer with symbolic offset into a large enclosing object is what CBMC handles worst)
-#define TOKV_SET(vec, i, tok) new (&(vec).u.d[i]) Token(tok)
+static std::string sym_text12() { std::string s; s.__push(sym_lower()); if (nondet_bool()) s.__push(sym_lower()); return s; }   // 1 or 2 letters
 static bool is_constraint_kind(int k) { return k == Token::NV_ID || k == Token::ID || k == Token::INT; }
 static bool is_template_kind(int k) { return k == Token::PROG_TEMP || k == Token::ARGS_TEMP || k == Token::ID_TEMP || k == Token::INT_TEMP || k == Token::VALUE_TEMP; }
+// decimal text of a small natural number, written independently of the container model's to_string
+static void push_dec(std::string &s, int v) {
+  if (v >= 1000) s.__push((char)('0' + (v / 1000) % 10));
+  if (v >= 100) s.__push((char)('0' + (v / 100) % 10));
+  if (v >= 10) s.__push((char)('0' + (v / 10) % 10));
+  s.__push((char)('0' + v % 10));
+}
 
 // an ordinary program token (never T_EOF): any kind, one symbolic letter as text
 static Token sym_plain_token() {
@@ -59,10 +80,10 @@ static Token sym_body_token(int ntemplates, int line) {
   return t;
 }
 
-// libc strtol on the short decimal texts the macro code passes ("0".."999" after the '$'); anything else is outside the model
+// libc strtol on the short decimal texts the macro code passes ("0".."999" after the '$', priorities); anything else is outside the model
 extern "C" long stub_strtol(const char *s, char **end, int base) {
-  long v = 0; bool live = true; int nd = 0;
-  for (int i = 0; i < 4; i++) if (live) { char c = s[i]; if (c >= '0' && c <= '9') { v = v * 10 + (c - '0'); nd++; } else live = false; }
+  long v = 0; bool live = true;
+  for (int i = 0; i < 4; i++) if (live) { char c = s[i]; if (c >= '0' && c <= '9') v = v * 10 + (c - '0'); else live = false; }
   ASSERT(!live && end == 0 && base == 10, "harness: strtol called on a text longer than 3 digits or with end pointer/base (model bound)");
   return v;
 }
@@ -71,7 +92,8 @@ extern "C" std::string stub_token_string(Token::Type t) { return std::string("?"
 
 // ------------------------------------------------------------------------------------------ contract stubs of the LR machinery
 struct CallRec { int tag, has, loc, len; std::vector<Token> in; std::vector<std::vector<Token>> matched; };
-struct Log { int conflict[MA_ND]; int n; int overflow; int ctor_calls; int adversarial; CallRec c[MA_NLOG]; };
+struct RepRec { int pass, tag, loc, len; std::vector<Token> R; std::vector<std::vector<Token>> matched; };
+struct Log { int conflict[MA_ND]; int n; int overflow; int adversarial; int nrep; CallRec c[MA_NLOG]; RepRec r[MA_NREP]; };
 static Log *G;
 
 // constructor contract: stores the definition; gen_res is non-empty exactly for the definitions the harness marked as conflicting
@@ -83,7 +105,6 @@ extern "C" void stub_ctor(MacroDetector *self, MacroDefinition md) {
   bool conf = false;
   for (int i = 0; i < MA_ND; i++) if (i == tag) conf = G->conflict[i] != 0;
   if (conf) self->gen_res.n = 1;
-  G->ctor_calls++;
 }
 
 // detect contract: nullopt, or a match that lies inside the input and never covers the final T_EOF; one sequence per rule position.
@@ -117,16 +138,30 @@ extern "C" std::optional<MacroDetector::Response> stub_detect(MacroDetector *sel
   return std::nullopt;
 }
 
-// ---------------------------------------------------------------------------------------------- counterexample read-out
-extern "C" {
-int CEX_nd, CEX_passes, CEX_nin, CEX_nlog, CEX_outn, CEX_nerr, CEX_rewrites, CEX_maxed;
-int CEX_prio[MA_ND], CEX_conf[MA_ND], CEX_nbody[MA_ND];
-int CEX_tag[MA_NLOG], CEX_has[MA_NLOG], CEX_loc[MA_NLOG], CEX_len[MA_NLOG], CEX_insize[MA_NLOG];
+// get_replacement stays REAL; calls from apply_macros pass through this recorder (arguments and result of the k-th call)
+extern "C" std::vector<Token> harness_real_get_replacement(std::pair<MacroDetector, MacroDetector::Response> in, int pass) { return get_replacement(in, pass); }
+extern "C" std::vector<Token> wrap_get_replacement(std::pair<MacroDetector, MacroDetector::Response> in, int pass) {
+  Log &L = *G;
+  RepRec r; r.pass = pass; r.tag = in.first.md.rule.u.d[0].line; r.loc = in.second.location; r.len = in.second.length; r.matched = in.second.matched;
+  r.R = harness_real_get_replacement(in, pass);
+  int k = L.nrep;
+  if (k >= MA_NREP) L.overflow = 1;
+  for (int i = 0; i < MA_NREP; i++) if (i == k) L.r[i] = r;
+  L.nrep = k + 1;
+  return r.R;
 }
 
-// ------------------------------------------------------------------------------------------ A. selection + loop (C09, C11)
+// ---------------------------------------------------------------------------------------------- counterexample read-out
+extern "C" {
+int CEX_nd, CEX_passes, CEX_nin, CEX_nlog, CEX_nrep, CEX_outn, CEX_nerr, CEX_rewrites, CEX_maxed;
+int CEX_prio[MA_ND], CEX_conf[MA_ND], CEX_nbody[MA_ND];
+int CEX_tag[MA_NLOG], CEX_has[MA_NLOG], CEX_loc[MA_NLOG], CEX_len[MA_NLOG], CEX_insize[MA_NLOG];
+int CEX_rtag[MA_NREP], CEX_rpass[MA_NREP], CEX_rloc[MA_NREP], CEX_rlen[MA_NREP];
+}
+
+// ------------------------------------------------------------------------------------------ A. selection + loop (C09, C10, C11)
 static void sym_definition(MacroDefinition &d, int tag) {
-  d.priority = nondet_int();
+  d.priority = 0;
   // rule "A <ID>"-like: position 0 carries the identity tag of the definition in its line number
   TOKV_SET(d.rule, 0, Token(Token::ID, std::string("A"), std::string("m"), tag));
   for (int r = 1; r < MA_RS; r++) TOKV_SET(d.rule, r, Token(Token::ID_TEMP, std::string("<ID>"), std::string("m"), sym_range(0, 99)));
@@ -138,21 +173,19 @@ static void sym_definition(MacroDefinition &d, int tag) {
   d.replacement.n = sym_range(0, MA_NBODY);
 }
 
-// expected[i] of cur with [loc,loc+len) replaced by R, compared with obs
+// cur with [loc,loc+len) replaced by R, compared with obs
 static bool splice_eq(const std::vector<Token> &cur, int loc, int len, const std::vector<Token> &R, const std::vector<Token> &obs) {
-  bool e = obs.n == cur.n - len + R.n;
-  for (int i = 0; i < MA_CT; i++) if (i < obs.n) {
-    bool same;
-    if (i < loc) same = tok_eq(obs.u.d[i], cur.__at(i));
-    else if (i < loc + R.n) same = tok_eq(obs.u.d[i], R.__at(i - loc));
-    else same = tok_eq(obs.u.d[i], cur.__at(i - R.n + len));
-    e = e && same;
+  bool e = obs.n == cur.n - len + R.n && loc >= 0 && len >= 0 && loc + len <= cur.n;
+  for (int i = 0; i < MA_CT; i++) if (e && i < obs.n) {
+    // (by-value selection among the constant positions; every index is inside its sequence because the sizes agree)
+    Token want = i < loc ? cur.__get(i) : i < loc + R.n ? R.__get(i - loc) : cur.__get(i - R.n + len);
+    e = tok_eq(obs.u.d[i], want);
   }
   return e;
 }
 
 static void run_selection(unsigned passes, bool adversarial) {
-  Log L; L.n = 0; L.overflow = 0; L.ctor_calls = 0; L.adversarial = adversarial; G = &L;
+  Log L; L.n = 0; L.nrep = 0; L.overflow = 0; L.adversarial = adversarial; G = &L;
   // ---- the definitions, in order of definition.  Bodies, pattern lines and the slot that $0 names are symbolic; the number of definitions,
   // their priorities and which of them the table generator rejects are CONSTANTS of the job (MA_NDEF, MA_PRIOS, MA_CONF): the family of
   // jobs enumerates every order pattern of the priorities over the definition positions (std::map only compares keys), so "independent
@@ -181,15 +214,18 @@ static void run_selection(unsigned passes, bool adversarial) {
   MacroApplicationResult res = Theo::apply_macros(input, defs, passes);
 
   const std::vector<Token> &out = res.transformed_sequence;
-  CEX_nlog = L.n; CEX_outn = out.n; CEX_nerr = res.errors.n;
+  CEX_nlog = L.n; CEX_nrep = L.nrep; CEX_outn = out.n; CEX_nerr = res.errors.n;
   for (int j = 0; j < MA_NLOG; j++) { CEX_tag[j] = L.c[j].tag; CEX_has[j] = L.c[j].has; CEX_loc[j] = L.c[j].loc; CEX_len[j] = L.c[j].len; CEX_insize[j] = L.c[j].in.n; }
+  for (int j = 0; j < MA_NREP; j++) { CEX_rtag[j] = L.r[j].tag; CEX_rpass[j] = L.r[j].pass; CEX_rloc[j] = L.r[j].loc; CEX_rlen[j] = L.r[j].len; }
 
-  // ---- oracle: replay the recorded answers of the detectors through the specification
+  // ---- oracle: replay the recorded answers of the detectors through the specification.  A correct run makes at most MA_ND * passes
+  // detect() calls and `passes` get_replacement() calls; the log holds one more pass so that an overrun is seen and flagged.
   std::vector<Token> cur = input, observed;
+  RepRec rec;                       // the get_replacement() call that belongs to the rewriting step of the current pass
   int pass = 0, rewrites = 0, hp = 0, remaining = 0, bestloc = 0, bestlen = 0;
-  bool done[MA_ND]; for (int i = 0; i < MA_ND; i++) done[i] = false;
-  bool in_window = false, have_best = false, best_ok = false, finished = false;
-  bool ok_member = true, ok_in = true, ok_budget = true, ok_after_end = true, ok_step = true, ok_temp = true;
+  bool done[MA_ND], tied[MA_ND]; for (int i = 0; i < MA_ND; i++) { done[i] = false; tied[i] = false; }
+  bool in_window = false, have_best = false, rec_seen = false, finished = false;
+  bool ok_member = true, ok_in = true, ok_budget = true, ok_after_end = true, ok_sel = true, ok_resp = true, ok_splice = true, ok_passno = true;
   for (int j = 0; j < MA_NLOG; j++) if (j < L.n) {
     const CallRec &e = L.c[j];
     if (finished) ok_after_end = false;
@@ -199,11 +235,13 @@ static void run_selection(unsigned passes, bool adversarial) {
       for (int i = 0; i < MA_ND; i++) if (usable[i] && !done[i] && (!any || prio[i] > hp)) { hp = prio[i]; any = true; }
       remaining = 0;
       for (int i = 0; i < MA_ND; i++) if (any && usable[i] && !done[i] && prio[i] == hp) remaining++;
-      in_window = true; have_best = false; best_ok = false;
+      in_window = true; have_best = false; rec_seen = false;
+      for (int i = 0; i < MA_ND; i++) tied[i] = false;
       // the token sequence after this bin's decision is what the next consulted detector sees, or the final result
       int nx = j + remaining;
       observed = out;
       for (int q = 0; q < MA_NLOG; q++) if (q == nx && q < L.n) observed = L.c[q].in;
+      for (int q = 0; q < MA_NREP; q++) if (q == rewrites) rec = L.r[q];
     }
     bool member = false;
     for (int i = 0; i < MA_ND; i++) if (i == e.tag) { member = usable[i] && !done[i] && prio[i] == hp; done[i] = true; }
@@ -214,19 +252,21 @@ static void run_selection(unsigned passes, bool adversarial) {
     if (e.has) {
       bool better = !have_best || e.loc < bestloc || (e.loc == bestloc && e.len > bestlen);
       bool tie = have_best && e.loc == bestloc && e.len == bestlen;
-      if (better || tie) {
-        int tg = e.tag; if (tg < 0 || tg >= MA_ND) tg = 0;
-        MacroDetector det(defs.__at(tg));
-        MacroDetector::Response rp; rp.location = e.loc; rp.length = e.len; rp.matched = e.matched;
-        std::vector<Token> R = get_replacement(std::make_pair(det, rp), pass);
-        bool same = splice_eq(cur, e.loc, e.len, R, observed);
-        if (better) { have_best = true; bestloc = e.loc; bestlen = e.len; best_ok = same; } else best_ok = best_ok || same;
-      }
+      if (better) { have_best = true; bestloc = e.loc; bestlen = e.len; for (int i = 0; i < MA_ND; i++) tied[i] = false; }
+      if (better || tie) for (int i = 0; i < MA_ND; i++) if (i == e.tag) tied[i] = true;
+      // the response handed to get_replacement is the one this detector reported
+      if (e.tag == rec.tag && rewrites < L.nrep) { rec_seen = true; ok_resp = ok_resp && e.loc == rec.loc && e.len == rec.len && seqs_eq(e.matched, rec.matched); }
     }
     if (remaining <= 0) {
       in_window = false;
-      if (have_best) { ok_step = ok_step && best_ok; cur = observed; pass++; rewrites++; for (int i = 0; i < MA_ND; i++) done[i] = false; }
-      else { bool left = false; for (int i = 0; i < MA_ND; i++) if (usable[i] && !done[i]) left = true; if (!left) finished = true; }
+      if (have_best) {
+        bool chosen_is_best = false;
+        for (int i = 0; i < MA_ND; i++) if (i == rec.tag) chosen_is_best = tied[i];
+        ok_sel = ok_sel && rewrites < L.nrep && rec_seen && chosen_is_best && rec.loc == bestloc && rec.len == bestlen;
+        ok_passno = ok_passno && rewrites < L.nrep && rec.pass == pass;
+        ok_splice = ok_splice && splice_eq(cur, rec.loc, rec.len, rec.R, observed);
+        cur = observed; pass++; rewrites++; for (int i = 0; i < MA_ND; i++) done[i] = false;
+      } else { bool left = false; for (int i = 0; i < MA_ND; i++) if (usable[i] && !done[i]) left = true; if (!left) finished = true; }
     }
   }
   CEX_rewrites = rewrites;
@@ -235,25 +275,28 @@ static void run_selection(unsigned passes, bool adversarial) {
   for (int i = 0; i < MA_NERR; i++) if (i < res.errors.n && res.errors.u.d[i].t == ParseError::MACRO_APPLY_REACHED_MAX_PASSES) { maxed = true; nmax++; }
   CEX_maxed = maxed;
 
-  ASSERT(!L.overflow, "harness: more detect() calls than the log holds (model bound)");
+  ASSERT(!L.overflow, "harness: more detect()/get_replacement() calls than the log holds (model bound)");
   // --- C09 selection
   ASSERT(ok_member, "C09: detectors are consulted by descending priority, every usable detector of the current priority exactly once before the decision, whatever the order of definition");
   ASSERT(ok_in, "C09: every detector consulted sees the token sequence produced by the rewriting steps so far (nothing else changes it)");
-  ASSERT(ok_step, "C09: the step taken replaces exactly the reported range of the highest-priority, then leftmost, then longest match by get_replacement's tokens; all other tokens untouched and in order");
+  ASSERT(ok_sel && ok_resp, "C09: the match that is instantiated is the reported match of the highest-priority, then leftmost, then longest candidate (any of exactly tied ones), with the token sequences its detector reported");
+  ASSERT(ok_splice, "C09: exactly the reported range is replaced by get_replacement's tokens; all other tokens untouched and in order");
+  ASSERT(L.nrep == rewrites, "C09: get_replacement is evaluated exactly once per rewriting step");
   ASSERT(ok_after_end, "C09: once a pass finds no match of any usable macro no further detector is consulted");
   ASSERT(spec_end, "C09: rewriting repeats until no pattern matches or the budget is exhausted, and every bin that is consulted is consulted completely");
   ASSERT(vec_eq(cur, out), "C09: the result is the token sequence after the last rewriting step (equal to the input when nothing matched)");
   if (L.n == 0) ASSERT(vec_eq(input, out) && !maxed, "C09: without any match of a usable macro the output equals the input and no MAX_PASSES error is reported");
   { int neof = 0; for (int i = 0; i < MA_CT; i++) if (i < out.n && out.u.d[i].t == Token::T_EOF) neof++;
-    ASSERT(out.n >= 1 && neof == 1 && out.__at(out.n - 1).t == Token::T_EOF, "C09: the result still ends in the single T_EOF"); }
-  // --- C10 relies on: one rewriting step per pass number (get_replacement(.., pass) of the oracle uses the step index)
-  ASSERT(ok_step && ok_budget, "C10: the k-th rewriting step of a run is the only one that instantiates its temporaries with pass number k");
+    ASSERT(out.n >= 1 && neof == 1 && out.__get(out.n - 1).t == Token::T_EOF, "C09: the result still ends in the single T_EOF"); }
+  // --- C10 relies on: one rewriting step per pass number
+  ASSERT(ok_passno && ok_budget && L.nrep == rewrites, "C10: the k-th rewriting step of a run is instantiated with pass number k and is the only instantiation with that number (one rewrite per pass)");
   // --- C11 budget
-  ASSERT(ok_budget && (unsigned)rewrites <= passes, "C11: at most `passes` rewriting steps; no detector is consulted after the budget is used up");
+  ASSERT(ok_budget && (unsigned)rewrites <= passes && (unsigned)L.nrep <= passes, "C11: at most `passes` rewriting steps; no detector is consulted after the budget is used up");
   if ((unsigned)rewrites < passes) ASSERT(!maxed, "C11: when some pass finds nothing the loop stops and no MAX_PASSES error is added");
   if ((unsigned)rewrites == passes && passes > 0) ASSERT(maxed, "C11: when every pass of the budget rewrote, MACRO_APPLY_REACHED_MAX_PASSES is reported");
   ASSERT(nmax <= 1 && res.errors.n == nconf + nmax, "C11: the error list holds one entry per rejected macro and at most one MAX_PASSES entry");
   ASSERT(out.n <= input.n + (int)passes * MA_MAXR && out.n <= input.n + rewrites * (MA_MAXR - 1), "C11: output size <= input size + passes * longest instantiated body");
+  if (adversarial) ASSERT((unsigned)rewrites == passes || out.n == 1 || nusable == 0, "C11: with a detector that always reports a match exactly `passes` rewriting steps happen (unless no token or no usable macro is left)");
   // --- C12 (usable filter; the generator itself is someone else's obligation)
   { bool ok = true; int k = 0;
     for (int i = 0; i < MA_ND; i++) if (i < nd && L.conflict[i]) {
@@ -268,6 +311,7 @@ static void run_selection(unsigned passes, bool adversarial) {
   }
 }
 
+// passes fixed by the job (MA_PFIX)
 #ifdef MA_PFIX
 extern "C" void h_select() {
   run_selection(MA_PFIX, false);
@@ -275,6 +319,7 @@ extern "C" void h_select() {
 }
 #endif
 
+// passes symbolic in [0, MA_PMAX]
 extern "C" void h_loop() {
   unsigned passes = (unsigned)sym_range(0, MA_PMAX);
   run_selection(passes, false);
@@ -288,3 +333,279 @@ extern "C" void h_adversarial() {
   run_selection(passes, true);
   ASSERT(0, "WITNESS: end of h_adversarial reachable");
 }
+
+// ------------------------------------------------------------------------------------------ B. instantiation (C09, C10)
+#ifndef MB_NB
+#define MB_NB 4      /* body tokens */
+#define MB_NT 3      /* template slots */
+#define MB_NM 2      /* tokens per matched sequence */
+#endif
+extern "C" { int CEX_b_kind[MB_NB], CEX_b_k[MB_NB], CEX_b_tti[MB_NT], CEX_b_nt, CEX_b_nb, CEX_b_pass, CEX_b_outn; }
+
+// real get_replacement on a detector built by the stubbed constructor: body <= MB_NB tokens of symbolic kind, MB_NT slots at symbolic rule
+// positions, every rule position matched by <= MB_NM tokens of symbolic kind/text.  Expected: the body with $n replaced by the tokens of
+// slot n (= rule position template_token_indices[n]), #n replaced by an ID named <#n>:<file>:<line of body[0]>_(M<pass>), the rest copied.
+extern "C" void h_inst() {
+  Log L; L.n = 0; L.nrep = 0; L.overflow = 0; L.adversarial = 0; for (int i = 0; i < MA_ND; i++) L.conflict[i] = 0; G = &L;
+  MacroDefinition d; d.priority = 0;
+  for (int r = 0; r < MA_RS; r++) TOKV_SET(d.rule, r, Token(Token::ID, std::string("A"), std::string("m"), 0));
+  d.rule.n = MA_RS;
+  int nt = sym_range(0, MB_NT); CEX_b_nt = nt;
+  unsigned tti[MB_NT];
+  for (int k = 0; k < MB_NT; k++) { tti[k] = (unsigned)sym_range(0, MA_RS - 1); if (k > 0 && k < nt) ASSUME(tti[k] > tti[k - 1]); d.template_token_indices.u.d[k] = tti[k]; CEX_b_tti[k] = tti[k]; }
+  d.template_token_indices.n = nt;
+  int nb = sym_range(1, MB_NB); CEX_b_nb = nb;
+  int line0 = sym_range(0, 99);
+  int bk[MB_NB];   // slot / temporary number of body token b
+  for (int b = 0; b < MB_NB; b++) {
+    Token t; t.file = one_char(sym_lower()); t.line = b == 0 ? line0 : sym_range(0, 999);
+    int sel = sym_range(0, 4); bk[b] = 0;
+    if (sel == 3) ASSUME(nt > 0);
+    if (sel == 0) { t.t = Token::ID; t.text = sym_text12(); }
+    else if (sel == 1) { t.t = Token::INT; t.text = one_char((char)('0' + sym_range(0, 9))); }
+    else if (sel == 2) { t.t = Token::PROGSEP; t.text = std::string(";"); }
+    else if (sel == 3) { bk[b] = sym_range(0, MB_NT - 1); ASSUME(bk[b] < nt); t.t = Token::INSERTION; t.text = two_char('$', (char)('0' + bk[b])); }
+    else { bk[b] = sym_range(0, 2); t.t = Token::TEMP_VAL; t.text = two_char('#', (char)('0' + bk[b])); }
+    TOKV_SET(d.replacement, b, t); CEX_b_kind[b] = t.t; CEX_b_k[b] = bk[b];
+  }
+  d.replacement.n = nb;
+  MacroDetector::Response resp; resp.location = sym_range(0, 9); resp.length = sym_range(1, 9);
+  std::vector<Token> slot[MA_RS];
+  for (int p = 0; p < MA_RS; p++) {
+    for (int q = 0; q < MB_NM; q++) { Token t; t.t = (Token::Type)sym_range(1, (int)Token::UNKNOWN); t.text = sym_text12(); t.file = one_char(sym_lower()); t.line = sym_range(0, 999); TOKV_SET(slot[p], q, t); }
+    slot[p].n = sym_range(0, MB_NM);
+    resp.matched.push_back(slot[p]);
+  }
+  int pass = sym_range(0, 1023); CEX_b_pass = pass;
+  MacroDetector det(d);
+  std::vector<Token> out = get_replacement(std::make_pair(det, resp), pass);
+  CEX_b_outn = out.n;
+
+  // expected sequence, built position by position (stores and comparisons at constant positions under a position guard)
+  std::vector<Token> want; int wn = 0; bool temp_ok = true;
+  for (int b = 0; b < MB_NB; b++) if (b < nb) {
+    const Token &c = d.replacement.u.d[b];
+    if (c.t == Token::INSERTION) {
+      int pos = 0; for (int k = 0; k < MB_NT; k++) if (k == bk[b]) pos = (int)tti[k];
+      for (int p = 0; p < MA_RS; p++) if (p == pos) for (int q = 0; q < MB_NM; q++) if (q < slot[p].n) { for (int w = 0; w < MA_CT; w++) if (w == wn) TOKV_SET(want, w, slot[p].u.d[q]); wn++; }
+    } else if (c.t == Token::TEMP_VAL) {
+      Token t = c; t.t = Token::ID;
+      std::string nm = c.text; nm.__push(':'); nm += c.file; nm.__push(':'); push_dec(nm, line0); nm.__push('_'); nm.__push('('); nm.__push('M'); push_dec(nm, pass); nm.__push(')');
+      t.text = nm;
+      for (int w = 0; w < MA_CT; w++) if (w == wn) { TOKV_SET(want, w, t); temp_ok = temp_ok && w < out.n && tok_eq(out.u.d[w], t); }
+      wn++;
+    } else { for (int w = 0; w < MA_CT; w++) if (w == wn) TOKV_SET(want, w, c); wn++; }
+  }
+  want.n = wn;
+  ASSERT(wn <= MA_CT, "harness: expected sequence longer than the token capacity (model bound)");
+  ASSERT(out.n == wn, "C09: the instantiated body has one token per ordinary body token, one per temporary and the matched tokens of the slot for every $n");
+  ASSERT(vec_eq(out, want), "C09: instantiation = body with every $n replaced by exactly the tokens matched by slot n (in order), every other token copied unchanged, temporaries renamed");
+  ASSERT(temp_ok, "C10: a temporary #n becomes an ID token named <#n>:<file of the token>:<line of the first body token>_(M<pass>) at its own file/line");
+  ASSERT(0, "WITNESS: end of h_inst reachable");
+}
+
+// C10: two instantiations of a temporary with symbolic (n, file, defining line, pass): the generated names
+extern "C" { int CEX_t_n[2], CEX_t_line[2], CEX_t_pass[2], CEX_t_f0[2], CEX_t_f1[2], CEX_t_flen[2]; }
+static std::string temp_name(int which) {
+  Log &L = *G;
+  MacroDefinition d; d.priority = 0;
+  TOKV_SET(d.rule, 0, Token(Token::ID, std::string("A"), std::string("m"), 0)); d.rule.n = 1;
+  int n = sym_range(0, 99), line0 = sym_range(0, 999), pass = sym_range(0, 1023);
+  // file name: 1 or 2 arbitrary non-NUL bytes (':' , digits, '_' , '(' included - nothing is assumed about file names)
+  std::string file; int c0 = sym_range(1, 127), c1 = sym_range(1, 127); bool two = nondet_bool(); file.__push((char)c0); if (two) file.__push((char)c1);
+  std::string text; text.__push('#'); push_dec(text, n);      // the scanner's TEMP_VAL rule: '#' followed by a decimal number without leading zero
+  TOKV_SET(d.replacement, 0, Token(Token::ID, std::string("x"), file, line0));
+  TOKV_SET(d.replacement, 1, Token(Token::TEMP_VAL, text, file, sym_range(0, 999)));
+  d.replacement.n = 2;
+  CEX_t_n[which] = n; CEX_t_line[which] = line0; CEX_t_pass[which] = pass; CEX_t_f0[which] = c0; CEX_t_f1[which] = c1; CEX_t_flen[which] = two ? 2 : 1;
+  MacroDetector::Response resp; resp.location = 0; resp.length = 1;
+  MacroDetector det(d);
+  std::vector<Token> out = get_replacement(std::make_pair(det, resp), pass);
+  ASSERT(out.n == 2 && out.u.d[1].t == Token::ID, "C10: the temporary becomes one ID token");
+  return out.u.d[1].text;
+}
+extern "C" void h_temp_names() {
+  Log L; L.n = 0; L.nrep = 0; L.overflow = 0; L.adversarial = 0; for (int i = 0; i < MA_ND; i++) L.conflict[i] = 0; G = &L;
+  std::string a = temp_name(0), b = temp_name(1);
+  bool same_n = CEX_t_n[0] == CEX_t_n[1], same_line = CEX_t_line[0] == CEX_t_line[1], same_pass = CEX_t_pass[0] == CEX_t_pass[1];
+  bool same_file = CEX_t_flen[0] == CEX_t_flen[1] && CEX_t_f0[0] == CEX_t_f0[1] && (CEX_t_flen[0] == 1 || CEX_t_f1[0] == CEX_t_f1[1]);
+  ASSERT(!a.trunc && !b.trunc, "harness: generated name longer than the string capacity (model bound)");
+  if (same_n && same_file && same_line && same_pass) ASSERT(a == b, "C10: equal n, file, defining line and pass give the same variable");
+  if (!same_pass) ASSERT(a != b, "C10: temporaries of different passes (expansion steps) are different variables, whatever n, file and line");
+  if (same_pass && same_file && same_line && !same_n) ASSERT(a != b, "C10: different n within one expansion step are different variables");
+  bool hash = false, colon = false, paren = false;
+  for (int i = 0; i < MINISTL_STR_CAP; i++) if (i < a.n) { if (a.b[i] == '#') hash = true; if (a.b[i] == ':') colon = true; if (a.b[i] == '(') paren = true; }
+  ASSERT(a.n >= 1 && a.b[0] == '#' && hash && colon && paren, "C10: every generated name starts with '#' and contains ':' and '(' (characters no user-written identifier contains)");
+  ASSERT(0, "WITNESS: end of h_temp_names reachable");
+}
+
+// ------------------------------------------------------------------------------------------ C. literal constraints (C09)
+#ifndef MC_NT
+#define MC_NT 4      /* tokens in the stream of a step harness */
+#endif
+// the specification of the two index lists of a MacroDefinition: positions of ID/INT/NV_ID and of the five template kinds
+static void spec_indices(const std::vector<Token> &rule, unsigned *cc, int &ncc, unsigned *tt, int &ntt) {
+  ncc = 0; ntt = 0;
+  for (int i = 0; i < MA_RS; i++) if (i < rule.n) {
+    if (is_constraint_kind(rule.u.d[i].t)) { for (int w = 0; w < MA_RS; w++) if (w == ncc) cc[w] = i; ncc++; }
+    if (is_template_kind(rule.u.d[i].t)) { for (int w = 0; w < MA_RS; w++) if (w == ntt) tt[w] = i; ntt++; }
+  }
+}
+static bool inv_indices(const MacroDefinition &md) {
+  unsigned cc[MA_RS], tt[MA_RS]; int ncc, ntt; spec_indices(md.rule, cc, ncc, tt, ntt);
+  return uvec_eq(md.content_constraint_token_indices, cc, ncc) && uvec_eq(md.template_token_indices, tt, ntt);
+}
+static Token sym_any_token(int lo_kind) {
+  Token t; t.t = (Token::Type)sym_range(lo_kind, (int)Token::UNKNOWN); t.text = sym_text12(); t.file = one_char(sym_lower()); t.line = sym_range(0, 999);
+  return t;
+}
+// a definition under construction: rule of r < MA_RS symbolic tokens with the index lists the specification prescribes (Inv), body of nb tokens
+static void sym_partial_macro(MacroDefinition &md, int max_rule, int max_body) {
+  md.priority = nondet_int();
+  for (int i = 0; i < MA_RS; i++) TOKV_SET(md.rule, i, sym_any_token(1));
+  md.rule.n = sym_range(0, max_rule);
+  unsigned cc[MA_RS], tt[MA_RS]; int ncc, ntt; spec_indices(md.rule, cc, ncc, tt, ntt);
+  for (int i = 0; i < MA_RS; i++) { md.content_constraint_token_indices.u.d[i] = cc[i]; md.template_token_indices.u.d[i] = tt[i]; }
+  md.content_constraint_token_indices.n = ncc; md.template_token_indices.n = ntt;
+  for (int i = 0; i < MA_CT; i++) TOKV_SET(md.replacement, i, sym_any_token(1));
+  md.replacement.n = sym_range(0, max_body);
+}
+static bool rule_prefix_eq(const std::vector<Token> &a, const std::vector<Token> &b, int n) {
+  bool e = true; for (int i = 0; i < MA_CT; i++) if (i < n) e = e && tok_eq(a.u.d[i], b.u.d[i]); return e;
+}
+struct StepCalls { int md, a; unsigned pos_md, pos_a; };
+static StepCalls *SC;
+extern "C" void stub_MD(ExtractionState &es) { SC->md++; SC->pos_md = es.tok_pos; }
+extern "C" void stub_A(ExtractionState &es) { SC->a++; SC->pos_a = es.tok_pos; }
+
+// One step of the extraction grammar (layer B): which = 0: D, 1: MD, 2: A, called on an arbitrary state; the recursive continuation
+// (MD / A) is replaced by a recorder, so the facts below hold for patterns and bodies of any length by induction over the token stream.
+// (The real D / MD / A is called from the harness_* entry itself: only calls made by functions named harness_* are not redirected.)
+struct StepCtx { StepCalls sc; std::vector<Token> toks; unsigned p; MacroDefinition before; int k; Token cur; std::vector<MacroDefinition> macros; };
+static void step_pre(StepCtx &c, int which) {
+  c.sc.md = 0; c.sc.a = 0; c.sc.pos_md = 0; c.sc.pos_a = 0; SC = &c.sc;
+  for (int i = 0; i < MC_NT; i++) TOKV_SET(c.toks, i, sym_any_token(0));
+  c.toks.n = sym_range(1, MC_NT);
+  c.p = (unsigned)sym_range(0, MC_NT); ASSUME((int)c.p <= c.toks.n);
+  sym_partial_macro(c.before, MA_RS - 1, which == 2 ? MA_CT - 1 : 0);
+  c.macros.push_back(c.before);
+  c.k = (int)c.p < c.toks.n ? (int)c.toks.__get(c.p).t : (int)Token::T_EOF;
+  c.cur = c.toks.__get(c.p);
+}
+static void step_post(StepCtx &c, int which, ExtractionState &es) {
+  const StepCalls &sc = c.sc; const MacroDefinition &before = c.before; const int k = c.k; const unsigned p = c.p; const Token &cur = c.cur;
+  const MacroDefinition &after = *es.incomplete_macros.p[0];
+  bool rule_same = after.rule.n == before.rule.n && rule_prefix_eq(after.rule, before.rule, before.rule.n) && uvec_eq(after.content_constraint_token_indices, before.content_constraint_token_indices.u.d, before.content_constraint_token_indices.n) && uvec_eq(after.template_token_indices, before.template_token_indices.u.d, before.template_token_indices.n);
+  bool body_same = after.replacement.n == before.replacement.n && rule_prefix_eq(after.replacement, before.replacement, before.replacement.n);
+  if (which <= 1) {
+    if (k != Token::T_EOF && k != Token::AS && k != Token::DEFINE) {
+      ASSERT(es.incomplete_macros.n == 1 && after.rule.n == before.rule.n + 1 && rule_prefix_eq(after.rule, before.rule, before.rule.n) && tok_eq(after.rule.__get(before.rule.n), cur),
+             "C09: every token between DEFINE [PRIORITY n] and AS is appended to the pattern unchanged (kind, text, file, line), earlier pattern tokens untouched");
+      ASSERT(inv_indices(after), "C09: content_constraint_token_indices are exactly the positions of ID/INT/NV_ID pattern tokens and template_token_indices exactly the positions of the five template kinds (push_rule keeps this invariant)");
+      ASSERT(body_same && after.priority == before.priority && es.encountered_errors.n == 0 && es.output.n == 0, "C09: a pattern token changes nothing else (body, priority, errors, output)");
+      ASSERT(es.tok_pos == p + 1 && sc.md == 1 && sc.a == 0 && sc.pos_md == p + 1, "C09: after a pattern token extraction continues with the next token in the pattern state");
+    }
+    if (k == Token::AS && which == 1) ASSERT(es.incomplete_macros.n == 1 && rule_same && body_same && es.tok_pos == p + 1 && sc.a == 1 && sc.md == 0 && sc.pos_a == p + 1 && es.encountered_errors.n == 0, "C09: AS ends the pattern: the pattern is complete and unchanged, the body starts with the next token");
+    if (k == Token::AS && which == 0) ASSERT(es.incomplete_macros.n == 0 && es.encountered_errors.n == 1 && es.encountered_errors.u.d[0].t == ParseError::MACRO_EXTRACT_EMPTY_DEFINE, "C09: a definition with an empty pattern is reported and dropped");
+    if (k == Token::DEFINE) ASSERT(es.incomplete_macros.n == 1 && rule_same && body_same && es.encountered_errors.n == 1 && es.encountered_errors.u.d[0].t == ParseError::MACRO_EXTRACT_NESTED && es.tok_pos == p + 1 && sc.md == 1 && sc.a == 0, "C09: a nested DEFINE is reported and skipped, the pattern is unchanged");
+  } else {
+    if (k != Token::T_EOF && k != Token::END_DEFINE && k != Token::DEFINE && k != Token::AS) {
+      ASSERT(es.incomplete_macros.n == 1 && rule_same && after.replacement.n == before.replacement.n + 1 && rule_prefix_eq(after.replacement, before.replacement, before.replacement.n) && tok_eq(after.replacement.__get(before.replacement.n), cur),
+             "C09: every token between AS and END DEFINE is appended to the body unchanged, pattern and index lists untouched");
+      ASSERT(es.tok_pos == p + 1 && sc.a == 1 && sc.md == 0 && sc.pos_a == p + 1 && es.encountered_errors.n == 0 && es.output.n == 0, "C09: after a body token extraction continues with the next token in the body state");
+    }
+    if (k == Token::END_DEFINE) ASSERT(es.incomplete_macros.n == 1 && rule_same && body_same && es.tok_pos == p + 1 && sc.a == 0 && sc.md == 0 && es.encountered_errors.n == 0, "C09: END DEFINE completes the definition unchanged");
+    if (k == Token::DEFINE || k == Token::AS) ASSERT(es.incomplete_macros.n == 1 && rule_same && body_same && es.encountered_errors.n == 1 && es.encountered_errors.u.d[0].t == ParseError::MACRO_EXTRACT_NESTED && es.tok_pos == p + 1 && sc.a == 1, "C09: DEFINE / AS inside a body is reported and skipped, the body is unchanged");
+  }
+}
+#define STEP_ENTRY(name, which, CALL) extern "C" void name() { StepCtx c; step_pre(c, which); \
+  ExtractionState es = {.incomplete_macros = c.macros, .encountered_errors = {}, .tok_pos = c.p, .tokens = c.toks, .output = {}}; \
+  CALL(es); step_post(c, which, es); ASSERT(0, "WITNESS: end of " #name " reachable"); }
+STEP_ENTRY(harness_d_step, 0, D)
+STEP_ENTRY(harness_md_step, 1, MD)
+STEP_ENTRY(harness_a_step, 2, A)
+
+// expected verdict of check_constraint: every constrained position is matched by exactly one token with equal text
+static bool spec_constraint(const std::vector<Token> &rule, const std::vector<std::vector<Token>> &matched) {
+  bool ok = true;
+  for (int i = 0; i < MA_RS; i++) if (i < rule.n && is_constraint_kind(rule.u.d[i].t)) {
+    const std::vector<Token> &m = *matched.p[i];
+    ok = ok && m.n == 1 && m.u.d[0].text == rule.u.d[i].text;
+  }
+  return ok;
+}
+static void sym_matched(std::vector<std::vector<Token>> &matched, int nrule) {
+  for (int i = 0; i < MA_RS; i++) if (i < nrule) {
+    std::vector<Token> seq; for (int q = 0; q < 2; q++) TOKV_SET(seq, q, sym_any_token(1)); seq.n = sym_range(0, 2);
+    matched.push_back(seq);
+  }
+}
+// real check_constraint on a detector whose definition satisfies the index invariant: symbolic pattern (all kinds, 1-2 letter texts) and
+// symbolic matched sequences (0..2 tokens per pattern position)
+extern "C" void h_check_constraint() {
+  Log L; L.n = 0; L.nrep = 0; L.overflow = 0; L.adversarial = 0; for (int i = 0; i < MA_ND; i++) L.conflict[i] = 0; G = &L;
+  MacroDefinition md; sym_partial_macro(md, MA_RS, 0); ASSUME(md.rule.n >= 1);
+  md.rule.u.d[0].line = 0;
+  std::vector<std::vector<Token>> matched; sym_matched(matched, md.rule.n);
+  MacroDetector det(md);
+  bool got = det.check_constraint(matched);
+  ASSERT(got == spec_constraint(md.rule, matched), "C09: check_constraint holds iff every literal ID/INT/other-character position of the pattern is matched by exactly one token with equal text");
+  ASSERT(0, "WITNESS: end of h_check_constraint reachable");
+}
+
+// real extract_macros end to end on DEFINE [PRIORITY n] <pattern> AS <body> END_DEFINE x EOF with CONCRETE kinds (the recursive descent is then
+// resolved by constant propagation) and symbolic texts / files / lines / priority digits / slot numbers; then check_constraint of the result.
+extern "C" { int CEX_x_shape; }
+static void run_extract(int shape, bool with_prio, int nrule, const int *rk, int nbody, const int *bkinds) {
+  Log L; L.n = 0; L.nrep = 0; L.overflow = 0; L.adversarial = 0; for (int i = 0; i < MA_ND; i++) L.conflict[i] = 0; G = &L;
+  CEX_x_shape = shape;
+  std::vector<Token> toks; int n = 0; int pv = 0;
+  TOKV_SET(toks, n, Token(Token::DEFINE, std::string("def"), std::string("m"), sym_range(0, 999))); n++;
+  if (with_prio) {
+    TOKV_SET(toks, n, Token(Token::PRIORITY, std::string("prio"), std::string("m"), sym_range(0, 999))); n++;
+    pv = sym_range(0, 999); std::string ptxt; push_dec(ptxt, pv);
+    TOKV_SET(toks, n, Token(Token::INT, ptxt, std::string("m"), sym_range(0, 999))); n++;
+  }
+  int r0 = n; int ntemplates = 0;
+  for (int i = 0; i < nrule; i++) { Token t = sym_any_token(1); t.t = (Token::Type)rk[i]; if (is_template_kind(rk[i])) ntemplates++; TOKV_SET(toks, n, t); n++; }
+  TOKV_SET(toks, n, Token(Token::AS, std::string("as"), std::string("m"), sym_range(0, 999))); n++;
+  int b0 = n; int slotno[4] = {0, 0, 0, 0};
+  for (int i = 0; i < nbody; i++) {
+    Token t = sym_any_token(1); t.t = (Token::Type)bkinds[i];
+    if (bkinds[i] == Token::INSERTION) { slotno[i] = sym_range(0, 3); t.text = two_char('$', (char)('0' + slotno[i])); }
+    if (bkinds[i] == Token::TEMP_VAL) t.text = two_char('#', (char)('0' + sym_range(0, 9)));
+    TOKV_SET(toks, n, t); n++;
+  }
+  TOKV_SET(toks, n, Token(Token::END_DEFINE, std::string("enddef"), std::string("m"), sym_range(0, 999))); n++;
+  int x0 = n;
+  { Token t = sym_any_token(1); ASSUME(t.t != Token::DEFINE); TOKV_SET(toks, n, t); n++; }
+  TOKV_SET(toks, n, Token(Token::T_EOF, std::string(""), std::string("m"), sym_range(0, 999))); n++;
+  toks.n = n;
+
+  MacroExtractionResult mer = Theo::extract_macros(toks);
+
+  ASSERT(mer.macros.n == 1, "C09: one DEFINE ... END DEFINE yields one macro definition");
+  const MacroDefinition &md = *mer.macros.p[0];
+  bool rule_ok = md.rule.n == nrule, body_ok = md.replacement.n == nbody; int nrange = 0;
+  for (int i = 0; i < nrule; i++) rule_ok = rule_ok && tok_eq(md.rule.u.d[i], toks.u.d[r0 + i]);
+  for (int i = 0; i < nbody; i++) {
+    if (bkinds[i] == Token::INSERTION && slotno[i] >= ntemplates) { nrange++; body_ok = body_ok && md.replacement.u.d[i].t == Token::ID && md.replacement.u.d[i].text == std::string("error"); }
+    else body_ok = body_ok && tok_eq(md.replacement.u.d[i], toks.u.d[b0 + i]);
+  }
+  ASSERT(rule_ok, "C09: the pattern of the definition is exactly the tokens between DEFINE [PRIORITY n] and AS");
+  ASSERT(body_ok, "C09: the body of the definition is exactly the tokens between AS and END DEFINE ($n naming no slot of the pattern is replaced by the ID 'error')");
+  ASSERT(inv_indices(md), "C09: content_constraint_token_indices / template_token_indices are exactly the positions of the literal kinds / template kinds");
+  ASSERT(md.priority == (with_prio ? pv : 0), "C09: the priority of a definition is the decimal value after PRIORITY, 0 without one");
+  { bool errs_ok = mer.errors.n == nrange; for (int i = 0; i < MA_NERR; i++) if (i < mer.errors.n) errs_ok = errs_ok && mer.errors.u.d[i].t == ParseError::RANGE;
+    ASSERT(errs_ok, "C09: a well-formed definition is extracted without errors, except one RANGE error per $n that names no slot"); }
+  ASSERT(mer.tokens.n == 2 && tok_eq(mer.tokens.u.d[0], toks.u.d[x0]) && mer.tokens.u.d[1].t == Token::T_EOF, "C09: the definition is removed from the token stream, the other tokens stay in order");
+  // literal constraints of the extracted definition
+  MacroDefinition m2 = md; m2.rule.u.d[0].line = 0;
+  std::vector<std::vector<Token>> matched; sym_matched(matched, nrule);
+  MacroDetector det(m2);
+  ASSERT(det.check_constraint(matched) == spec_constraint(md.rule, matched), "C09: a match of the extracted macro is accepted iff every literal ID/INT/other-character position is matched by exactly one token with equal text");
+}
+extern "C" void h_extract_0() { static const int rk[] = {Token::ID, Token::ID_TEMP, Token::NV_ID}; static const int bk[] = {Token::INSERTION, Token::ID}; run_extract(0, false, 3, rk, 2, bk); ASSERT(0, "WITNESS: end of h_extract_0 reachable"); }
+extern "C" void h_extract_1() { static const int rk[] = {Token::PROG_TEMP, Token::PROGSEP, Token::INT}; static const int bk[] = {Token::TEMP_VAL, Token::INSERTION}; run_extract(1, true, 3, rk, 2, bk); ASSERT(0, "WITNESS: end of h_extract_1 reachable"); }
+extern "C" void h_extract_2() { static const int rk[] = {Token::LOOP, Token::VALUE_TEMP, Token::ARGS_TEMP, Token::INT_TEMP}; static const int bk[] = {Token::INSERTION}; run_extract(2, true, 4, rk, 1, bk); ASSERT(0, "WITNESS: end of h_extract_2 reachable"); }
+extern "C" void h_extract_3() { static const int rk[] = {Token::ID}; static const int bk[] = {Token::ID}; run_extract(3, false, 1, rk, 0, bk); ASSERT(0, "WITNESS: end of h_extract_3 reachable"); }
